@@ -125,7 +125,7 @@ def history_sig(job, upto=None):
     ops = job['ops'] if upto is None else job['ops'][:upto]
     sig = {'lk': job['lk'], 'disk0': job['disk0'], 'layout': job['layout'], 'ops': ops}
     if job.get('back'):
-        sig['back'] = True
+        sig['back'] = job['back']
     return sig
 
 
@@ -141,7 +141,7 @@ def run(tier, replay=None):
             res = run_workers([job], wd, 1)
             for e in res[0]['events']:
                 print('  ', json.dumps(e)[:400])
-            cases = [{'id': 0, 'disk0': job['disk0'], 'events': res[0]['events']}]
+            cases = [{'id': 0, 'disk0': job['disk0'], 'events': res[0]['events'], 'cyclic': bool(job.get('back'))}]
             tl, fails = core.tlc_cases('CacheTrace', 'CacheTrace.cfg', cases, 'C09', workdir=wd, nshards=1)
             ck.add_tlc(tl)
             ck.traces = ck.evaluations = 1
@@ -190,7 +190,9 @@ def run(tier, replay=None):
         for j in jobs:
             if 'star' in j['lk'] and rng.random() < 0.25:
                 j2 = dict(j)
-                j2['back'] = True
+                # 1: the last module star-imports the first (first line); 2: the middle module star-imports the first AFTER its
+                # own import of the last one, and the long-lived project is entered through the middle module first
+                j2['back'] = rng.choice([1, 1, 2])
                 j2.pop('expect', None)
                 cyc.append(j2)
         jobs += cyc
@@ -204,7 +206,7 @@ def run(tier, replay=None):
         nreq = 0
         for j in jobs:
             r = byid[j['id']]
-            cases.append({'id': j['id'], 'disk0': j['disk0'], 'events': r['events']})
+            cases.append({'id': j['id'], 'disk0': j['disk0'], 'events': r['events'], 'cyclic': bool(j.get('back'))})
             ck.evaluations += 1
             nreq += sum(1 for e in r['events'] if e['op'] == 'request')
             if nontrivial(j['ops']):
